@@ -259,6 +259,7 @@ type headHist struct {
 
 	maxBound     int64
 	hasBound     bool
+	evictMaxts   []int64
 	truncChecked int
 	dropsSeen    int
 	nontrivial   bool
@@ -791,6 +792,14 @@ func runHead(c *core.Case) {
 			}
 			lo, hi := hd.MinTime(), hd.MaxTime()
 			maxt := lo + r.Int64N(hi-lo+1)
+			if len(h.evictMaxts) > 0 && r.IntN(5) < 2 {
+				// boundary: truncate exactly at the head max time of an earlier series eviction
+				// (the time until which the evicted series' records have to be kept)
+				if b := h.evictMaxts[r.IntN(len(h.evictMaxts))] - 1; b >= lo && b <= hi {
+					maxt = b
+					h.c.Count("head_compacthead_at_eviction_boundary", 1)
+				}
+			}
 			rh := tsdb.NewRangeHead(hd, lo, maxt)
 			ex := rh.BlockMaxTime()
 			h.exactMint = &ex
@@ -800,6 +809,7 @@ func runHead(c *core.Case) {
 			h.exactMint = nil
 		case op < 85:
 			h.appendBatch(true)
+			h.evictMaxts = append(h.evictMaxts, h.db.Head().MaxTime())
 			err := h.db.CompactStaleHead()
 			h.tr("compactStaleHead err=%v", err)
 			h.c.Count("head_stale_compactions", 1)
@@ -817,6 +827,7 @@ func runHead(c *core.Case) {
 					sel = append(sel, storage.SeriesRef(ref))
 				}
 			}
+			h.evictMaxts = append(h.evictMaxts, h.db.Head().MaxTime())
 			err := h.db.CompactSelectedSeries(sel)
 			h.tr("compactSelectedSeries %v err=%v", sel, err)
 			h.c.Count("head_selected_compactions", 1)
